@@ -9,6 +9,16 @@ kind == "fuzz": native go fuzzing (thorough only): fuzz (target), fuzztime.
 Q, T = "quick", "thorough"
 
 PROPS = {
+    "C05": {"engines": [
+        {"name": "speaker", "pkg": "speaker", "run": "^TestVerifC05Spk$",
+         "checks": {Q: 6000, T: 800000}, "shards": {Q: 4, T: 16}},
+    ]},
+    "C09": {"engines": [
+        {"name": "speaker-witness", "pkg": "speaker", "run": "^TestVerifSpkWitness$", "rapid": False,
+         "checks": {Q: 1, T: 1}, "shards": {Q: 1, T: 1}},
+        {"name": "speaker", "pkg": "speaker", "run": "^TestVerifC09Spk$",
+         "checks": {Q: 6000, T: 800000}, "shards": {Q: 4, T: 16}},
+    ]},
     "C04": {"engines": [
         {"name": "views", "pkg": "speaker", "run": "^TestVerifC04Views$",
          "checks": {Q: 30000, T: 3200000}, "shards": {Q: 2, T: 16}},
